@@ -89,7 +89,7 @@ func iterAll(it ranges.Iterator) []int {
 }
 
 func probeTail(b *strings.Builder, n int, mn, mx int, value func(int) (int, error), index func(int) int, has func(int) bool) {
-	const big = 1 << 60
+	const big = 1 << 62
 	if mn < -big || mx > big || mx-mn > 1<<20 || n > 1<<20 {
 		// the probe loops themselves would overflow or run for ever
 		return
@@ -250,10 +250,40 @@ func populate(path string, readable bool, ents []string) (cleanup func()) {
 		os.MkdirAll(filepath.Dir(abs), 0o755)
 		return
 	}
-	os.MkdirAll(abs, 0o755)
 	tfile := filepath.Join(root, "targets", "file")
 	tdir := filepath.Join(root, "targets", "dir")
+	// "via link" layout: a case directory named v<N> holds the real directory at v<N>/real/d and the
+	// path under test, v<N>/alt/x/d, is a RELATIVE symlink to it; links inside it are relative too
+	// ("../name.t"), so their physical target (v<N>/real/name.t) differs from the lexical one
+	// (v<N>/alt/x/name.t), where a decoy of the opposite kind sits.
+	if strings.HasPrefix(filepath.Base(top), "v") && strings.HasSuffix(abs, "/alt/x/d") {
+		realParent := filepath.Join(top, "real")
+		real := filepath.Join(realParent, "d")
+		os.MkdirAll(real, 0o755)
+		os.MkdirAll(filepath.Dir(abs), 0o755)
+		os.Symlink("../../real/d", abs)
+		lex := filepath.Dir(abs)
+		for _, e := range ents {
+			switch {
+			case strings.HasPrefix(e, "LF:"):
+				os.WriteFile(filepath.Join(realParent, e[3:]+".t"), nil, 0o644)
+				os.Mkdir(filepath.Join(lex, e[3:]+".t"), 0o755)
+				os.Symlink("../"+e[3:]+".t", filepath.Join(real, e[3:]))
+			case strings.HasPrefix(e, "LD:"):
+				os.Mkdir(filepath.Join(realParent, e[3:]+".t"), 0o755)
+				os.WriteFile(filepath.Join(lex, e[3:]+".t"), nil, 0o644)
+				os.Symlink("../"+e[3:]+".t", filepath.Join(real, e[3:]))
+			}
+		}
+		abs = real
+	} else {
+		os.MkdirAll(abs, 0o755)
+	}
+	via := strings.HasPrefix(filepath.Base(top), "v") && strings.HasSuffix(abs, "/real/d")
 	for _, e := range ents {
+		if via && (strings.HasPrefix(e, "LF:") || strings.HasPrefix(e, "LD:")) {
+			continue
+		}
 		switch {
 		case strings.HasPrefix(e, "F:"):
 			os.WriteFile(filepath.Join(abs, e[2:]), nil, 0o644)
